@@ -15,8 +15,9 @@ from harness import tlcrun
 from harness.tlcrun import MachineryError
 
 VERIF = tlcrun.VERIF
-EVID = os.path.join(VERIF, 'evidence')
-REPLAYS = os.path.join(VERIF, 'replays')
+_OUT = os.environ.get('VERIF_OUT') or VERIF
+EVID = os.path.join(_OUT, 'evidence')
+REPLAYS = os.path.join(_OUT, 'replays')
 KNOWN = os.path.join(VERIF, 'known_findings.json')
 
 
